@@ -25,9 +25,7 @@ from sa.cli import PROPERTIES  # noqa: E402
 sys.setrecursionlimit(10000)
 
 # (refactoring id, property) -> reason why the check is allowed not to be silent (a refusal, exit 2, that is documented in DESIGN.md)
-EXPECTED: dict = {
-    ("C19_2", "C19"): "a rewrite of docs.patch.patch_sympy_evaluate: the check mirrors that function (which rewrites module ASTs) in a replica pinned by anchors and refuses when it changes",
-}
+EXPECTED: dict = {}
 
 
 def apply_patch(diff_text: str) -> dict:
